@@ -24,5 +24,8 @@ ProbeFaithful(p, st, results, noneCount, k) ==
 (* of the four castling rights and of the side to move (entries 768..771 and 780 of the format's Random64 table) are part   *)
 (* of the format definition; a well-formed book found on disk was written with exactly these.                               *)
 PolyglotConst == [H1 |-> "31d71dce64b2c310", A1 |-> "f165b587df898190", H8 |-> "a57e6339dd2cf3a0", A8 |-> "1ef6e6dbb1961ec9",
-                  turn |-> "f8d626aaaf278509"]
+                  turn |-> "f8d626aaaf278509",
+                  \* RandomEnPassant[file a..h] of the polyglot book format (Random64[772..779])
+                  epA |-> "70cc73d90bc26e24", epB |-> "e21a6b35df0c3ad7", epC |-> "003a93d8b2806962", epD |-> "1c99ded33cb890a1",
+                  epE |-> "cf3145de0add4289", epF |-> "d0e4427a5514fb72", epG |-> "77c621cc9fb3a483", epH |-> "67a34dac4356550b"]
 =========================================================================
